@@ -123,14 +123,15 @@ Definition uv_write_step (single : bool) (w : world) : wstate * world :=
   | Intr => (WDone RcIntr, w)
   end.
 
-(* uv_write2, src/unix/stream.c:1333-1399 (valid, writable stream) *)
+(* uv_write2, src/unix/stream.c:1333-1402 (valid, writable stream).  Since /repo f63c297 the
+   uv_buf_t array is allocated (line 1364-1369) before uv__req_init registers the request. *)
 Definition uv_write2 (nbufs : nat) (connecting empty_queue : bool) (l : ledger) (w : world) : out :=
-  let l := add_reqs 1 l in                                 (* uv__req_init, line 1355 *)
   let big := Nat.ltb 4 nbufs in
-  let '(ok, w) := if big then alloc PMalloc w else (true, w) in   (* line 1364 *)
-  if negb ok then mkO (Ret (RcErr ENOMEM)) l None w        (* line 1367: still registered *)
+  let '(ok, w) := if big then alloc PMalloc w else (true, w) in
+  if negb ok then mkO (Ret (RcErr ENOMEM)) l None w        (* nothing registered yet *)
   else
     let l := if big then add_mem 1 l else l in
+    let l := add_reqs 1 l in                               (* uv__req_init *)
     if connecting then mkO (Ret RcOk) l None w
     else if empty_queue then
       let '(s, w) := uv_write_step (Nat.eqb nbufs 1) w in  (* uv__write *)
@@ -199,7 +200,8 @@ Definition uv_fs_rename_async (pool_started : bool) (l : ledger) (w : world) : o
     | None => mkO (Ret RcOk) l None w
     end.
 
-(* uv_fs_poll_start, src/fs-poll.c:66-113 *)
+(* uv_fs_poll_start, src/fs-poll.c:66-116 (after /repo 9bc8132: the stat request is submitted
+   before uv_timer_init links the timer into handle_queue) *)
 Definition uv_fs_poll_start (active pool_started : bool) (l : ledger) (w : world) : out :=
   if active then mkO (Ret RcOk) l None w
   else
@@ -207,27 +209,26 @@ Definition uv_fs_poll_start (active pool_started : bool) (l : ledger) (w : world
     if negb ok then mkO (Ret (RcErr ENOMEM)) l None w
     else
       let l := add_mem 1 l in
-      let l := add_hq 1 l in                               (* uv_timer_init: linked into handle_queue *)
-      let o := uv_fs_stat_async pool_started l w in        (* line 99 *)
+      let o := uv_fs_stat_async pool_started l w in        (* line 96 *)
       match o_res o with
-      | Ret RcOk => mkO (Ret RcOk) (add_handles 1 (o_led o)) None (o_w o)   (* uv__handle_start *)
-      | Ret e =>
-        (* error: uv__free(ctx) - the timer handle inside it stays linked *)
-        mkO (Ret e) (add_dangling 1 (add_mem (-1) (o_led o))) None (o_w o)
+      | Ret RcOk =>
+        (* uv_timer_init: linked into handle_queue; uv__handle_start *)
+        mkO (Ret RcOk) (add_handles 1 (add_hq 1 (o_led o))) None (o_w o)
+      | Ret e => mkO (Ret e) (add_mem (-1) (o_led o)) None (o_w o)       (* error: uv__free(ctx) *)
       | Abort s => mkO (Abort s) (o_led o) None (o_w o)
       end.
 
 (* uv_os_environ, src/unix/core.c:1431-1484.  [env]: does the entry contain '='?
-   Returns the number of items handed to the caller through o_cb = RcOther cnt. *)
+   Returns the number of items handed to the caller through o_cb = RcOther cnt.
+   Since /repo 75025a4 the failure path frees envitems[i].name for i < cnt. *)
 Fixpoint environ_loop (env : list bool) (cnt : Z) (l : ledger) (w : world) : out :=
   match env with
   | [] => mkO (Ret RcOk) l (Some (RcOther cnt)) w
   | has_eq :: rest =>
     let '(ok, w) := alloc PMalloc w in                     (* uv__strdup, line 1452 *)
     if negb ok then
-      (* fail: for (i = 0; i < cnt; i++) uv__free(envitems[cnt].name)  -- slot cnt is
-         still zeroed, so nothing is released; then uv__free(envitems) *)
-      mkO (Ret (RcErr ENOMEM)) (add_mem (-1) l) (Some (RcOther 0)) w
+      (* fail: the cnt names duplicated so far, then the array *)
+      mkO (Ret (RcErr ENOMEM)) (add_mem (- cnt - 1) l) (Some (RcOther 0)) w
     else if has_eq then environ_loop rest (cnt + 1) (add_mem 1 l) w
     else environ_loop rest cnt l w                         (* strdup + free *)
   end.
@@ -235,21 +236,6 @@ Definition uv_os_environ (env : list bool) (l : ledger) (w : world) : out :=
   let '(ok, w) := alloc PCalloc w in
   if negb ok then mkO (Ret (RcErr ENOMEM)) l (Some (RcOther 0)) w
   else environ_loop env 0 (add_mem 1 l) w.
-
-(* the same with the repaired failure path (free index i) *)
-Fixpoint environ_loop_fixed (env : list bool) (cnt : Z) (l : ledger) (w : world) : out :=
-  match env with
-  | [] => mkO (Ret RcOk) l (Some (RcOther cnt)) w
-  | has_eq :: rest =>
-    let '(ok, w) := alloc PMalloc w in
-    if negb ok then mkO (Ret (RcErr ENOMEM)) (add_mem (- cnt - 1) l) (Some (RcOther 0)) w
-    else if has_eq then environ_loop_fixed rest (cnt + 1) (add_mem 1 l) w
-    else environ_loop_fixed rest cnt l w
-  end.
-Definition uv_os_environ_fixed (env : list bool) (l : ledger) (w : world) : out :=
-  let '(ok, w) := alloc PCalloc w in
-  if negb ok then mkO (Ret (RcErr ENOMEM)) l (Some (RcOther 0)) w
-  else environ_loop_fixed env 0 (add_mem 1 l) w.
 
 (* uv_fs_event_start, src/unix/linux.c:2646-2702 with init_inotify 2462-2477 *)
 Definition uv_fs_event_start (inotify_open known_wd need_resize : bool) (l : ledger) (w : world) : out :=
